@@ -5,9 +5,9 @@ cd /verif
 rc=0
 for p in $(python3 -c "import json; print(' '.join(c['property_id'] for c in json.load(open('MANIFEST.json'))['checks']))"); do
   s=$(date +%s)
-  ./check $p --tier $tier > /tmp/run_all_$p.log 2>&1; r=$?
+  ./check $p --tier $tier > /tmp/run_all_${tier}_$p.log 2>&1; r=$?
   e=$(( $(date +%s) - s ))
-  echo "$p exit=$r ${e}s $(grep -c KNOWN-FINDING /tmp/run_all_$p.log) known, $(grep -c INCONCLUSIVE /tmp/run_all_$p.log) inconclusive, $(grep -c VIOLATION /tmp/run_all_$p.log) violations"
+  echo "$p exit=$r ${e}s $(grep -c KNOWN-FINDING /tmp/run_all_${tier}_$p.log) known, $(grep -c INCONCLUSIVE /tmp/run_all_${tier}_$p.log) inconclusive, $(grep -c VIOLATION /tmp/run_all_${tier}_$p.log) violations"
   [ $r -ne 0 ] && rc=1
 done
 exit $rc
